@@ -13,30 +13,24 @@ pub mod stiff;
 pub mod trees;
 pub mod util;
 
-use proptest::strategy::{Strategy, ValueTree};
-use proptest::test_runner::{Config, RngAlgorithm, TestRng, TestRunner};
+pub mod bytes;
 
-/// Fuzz entry: the bytes are used as the random stream of proptest's generators (pass-through RNG),
-/// so coverage-guided mutation of the bytes mutates the generated case structurally.  Returns
-/// Some((case json, message)) on a violation that is not a listed known finding.
+/// Fuzz entry: decode the bytes into a case of the property (see bytes.rs) and run the property's own
+/// oracle.  Returns Some((case json, message)) on a violation that is not a listed known finding.
 pub fn fuzz_one(id: &str, data: &[u8]) -> Option<(String, String)> {
     use engine::Outcome;
-    fn go<C: serde::Serialize + std::fmt::Debug>(data: &[u8], strat: proptest::strategy::BoxedStrategy<C>, check: &(dyn Fn(&C) -> Outcome + Sync), known_keys: &[&str]) -> Option<(String, String)> {
-        let rng = TestRng::from_seed(RngAlgorithm::PassThrough, data);
-        let mut runner = TestRunner::new_with_rng(Config { failure_persistence: None, ..Config::default() }, rng);
-        let tree = strat.new_tree(&mut runner).ok()?;
-        let case = tree.current();
+    fn go<C: serde::Serialize>(case: C, check: &(dyn Fn(&C) -> Outcome + Sync)) -> Option<(String, String)> {
         match engine::eval(check, &case) {
-            Outcome::Violation { key, msg } if !known_keys.contains(&key.as_str()) => Some((serde_json::to_string_pretty(&case).unwrap(), msg)),
+            Outcome::Violation { key, msg } if key.is_empty() || key == "panic" => Some((serde_json::to_string_pretty(&case).unwrap(), msg)),
             _ => None,
         }
     }
     match id {
-        "C03" => go(data, props::c03::strategy(), &props::c03::check, &[]),
-        "C04" => go(data, props::c04::strategy(), &props::c04::check, &[]),
-        "C05" => go(data, props::c05::strategy(), &props::c05::check, &[]),
-        "C16" => go(data, props::c16::strategy(), &props::c16::check, &[]),
-        "C17" => go(data, props::c17::strategy(), &props::c17::check, &[]),
+        "C03" => go(bytes::case_c03(data), &props::c03::check),
+        "C04" => go(bytes::case_c04(data), &props::c04::check),
+        "C05" => go(bytes::case_c05(data), &props::c05::check),
+        "C16" => go(bytes::case_c16(data), &props::c16::check),
+        "C17" => go(bytes::case_c17(data), &props::c17::check),
         _ => None,
     }
 }
